@@ -312,6 +312,7 @@ class BodyPartReader:
         self._length = int(length) if length is not None else None
         self._read_bytes = 0
         self._b64_carry = b""
+        self._decompressor: ZLibDecompressor | None = None
         self._unread: deque[bytes] = deque()
         self._prev_chunk: bytes | None = None
         self._content_eof = 0
@@ -395,6 +396,16 @@ class BodyPartReader:
             if not chunk and self._b64_carry:
                 # A short read held no whole quartet yet, all of it is carried.
                 return await self.read_chunk(size)
+        elif encoding and encoding.lower() == "quoted-printable":
+            # Likewise a chunk should not end inside an "=XX" escape or a soft
+            # line break "=\r\n": the unfinished tail goes to the next chunk.
+            cut = chunk.rfind(b"=", max(0, len(chunk) - 2))
+            at_end = self._at_eof or self._read_bytes == self._length
+            if cut >= 0 and not at_end:
+                self._b64_carry = chunk[cut:]
+                chunk = chunk[:cut]
+                if not chunk:
+                    return await self.read_chunk(size)
 
         if self._read_bytes == self._length:
             self._at_eof = True
@@ -628,10 +639,14 @@ class BodyPartReader:
         if encoding == "identity":
             yield data
         elif encoding in {"deflate", "gzip"}:
-            d = ZLibDecompressor(
-                encoding=encoding,
-                suppress_deflate_header=True,
-            )
+            # The part may be decoded chunk by chunk: keep the decompressor
+            # until the compressed stream has ended.
+            d = self._decompressor
+            if d is None or d.eof:
+                d = self._decompressor = ZLibDecompressor(
+                    encoding=encoding,
+                    suppress_deflate_header=True,
+                )
             yield await d.decompress(data, max_length=self._max_decompress_size)
             while d.data_available:
                 yield await d.decompress(b"", max_length=self._max_decompress_size)
